@@ -9,7 +9,7 @@ declare -A MAP=(
  [d0e1d57]="C15" [ade66a5]="C19" [934ccf8]="C18" [f24432d]="C06 C07" [8e61582]="C02" [10339b8]="C03"
  [58131c4]="C04 C09 C16" [042d813]="C04" [0e9b858]="C18" [641b50a]="C20" [77afcfd]="C15" [420bba5]="C19"
  [df0328c]="C01" [d79c306]="C05" [6a3cf3b]="C02" [a60d135]="C07" [2ba857c]="C11" [3b400f7]="C11 C12"
- [b0c91be]="C03 C16" [79ee77b]="C06 C07" [d5b8e64]="C20" [5b398e3]="C06"
+ [b0c91be]="C03 C16" [79ee77b]="C06 C07" [d5b8e64]="C20" [5b398e3]="C06" [1b41132]="C18"
 )
 for c in $(git -C /repo log --format=%h --grep='^fix:' 68bdab6..HEAD); do
   ids=${MAP[$c]:-}
